@@ -59,7 +59,7 @@ func seqPart(c *vf.Ctx) {
 				l.setOne(uni, []sop{a})
 			}
 			// the one-step prefix is evaluated by the task with i%len==0; a failing prefix is not extended
-			if st, _, _, _ := runSetSeq(uni, []sop{a}, 0, nil); st == 1 {
+			if st, _, _, _ := runSetSeq(uni, []sop{a}, 0, nil, nil); st == 1 {
 				if seq := []sop{a, b}; l.setOne(uni, seq) && maxLen > 2 {
 					l.setDFS(uni, alpha, seq, maxLen)
 				}
@@ -377,7 +377,7 @@ func replay(c *vf.Ctx) {
 	case "set":
 		var r setCase
 		_ = json.Unmarshal(raw, &r)
-		if step, fp, what, _ := runSetSeq(r.Universe, r.Ops, 0, nil); fp != "" {
+		if step, fp, what, _ := runSetSeq(r.Universe, r.Ops, 0, nil, nil); fp != "" {
 			r.Step, r.What = step, what
 			c.Violation("set:"+fp, "ds.Set history: "+what, r)
 		}
@@ -446,7 +446,9 @@ func run(c *vf.Ctx) {
 	c.SetRule("sequential: one evaluation = one history whose last step is compared with the reference model (exhaustive part: all histories up to length 3 over the ds.Set alphabet on 3 elements – Add/Delete/AddAll/DeleteAll/Replace with every subset and the set itself, Apply/Compute with every disjoint pair of subsets, Clear, Clone, serix round trip – and up to length 6 (quick) / 7 (thorough) over the OrderedMap alphabet on 3 keys) or one checked step of a seeded long history (6 elements; ds.Set 40 steps with all read-only methods against every subset after each step, OrderedMap 60 steps, SetArithmetic 12 calls with thresholds 1-3); " +
 		"concurrent: one evaluation = one completed method combination (all 190 pairs and 1330 triples of 19 Set methods, looped on one set) or one recorded history judged by porcupine (Apply/Compute/Replace on a whole-set model; Add/Delete/Has and Set/Get/Has/Delete partitioned per key); " +
 		"distinct_nontrivial counts distinct (operation-class sequence, resulting order) signatures of sequential histories plus distinct completed method combinations")
+	stop := startProfile()
 	seqPart(c)
+	stop()
 	c.Extra("phase_s_sequential", int(time.Since(startT).Seconds()))
 	dead := combosPart(c)
 	c.Extra("phase_s_combinations", int(time.Since(startT).Seconds()))
